@@ -271,7 +271,7 @@ func c07ImageSelection(c *Ctx, info *types.Info) {
 	ng := c.P.Graph(nw)
 	for _, h := range ng.Find(func(n ast.Node) bool {
 		as, ok := n.(*ast.AssignStmt)
-		return ok && len(as.Lhs) == 1 && canonPath(info, as.Lhs[0]) == "Vaxis.graphicsProtocol"
+		return ok && len(as.Lhs) == 1 && lhsPath(info, as.Lhs[0]) == "Vaxis.graphicsProtocol"
 	}) {
 		as := h.Node.(*ast.AssignStmt)
 		val := types.ExprString(as.Rhs[0])
@@ -471,7 +471,7 @@ func c07Chain(c *Ctx, info *types.Info, ems []*Emission) {
 			for _, s := range cc.Body {
 				ast.Inspect(s, func(m ast.Node) bool {
 					if as, ok := m.(*ast.AssignStmt); ok && len(as.Lhs) == 1 && len(as.Rhs) == 1 {
-						p := canonPath(info, as.Lhs[0])
+						p := lhsPath(info, as.Lhs[0])
 						if strings.HasPrefix(p, "Vaxis.caps.") {
 							if tv := info.Types[as.Rhs[0]]; tv.Value != nil && tv.Value.String() == "true" {
 								flags = append(flags, strings.TrimPrefix(p, "Vaxis.caps."))
@@ -801,6 +801,13 @@ func c07WidthDecision(c *Ctx, info *types.Info) {
 			c.undecided("C07.g", fn.name, 0, "function or gwidth calls not found")
 			continue
 		}
+		// if some call passes a non-constant method, decide by interpreting the function under each assignment
+		needInterp := false
+		for _, s := range sites {
+			if s.method != "wcwidth" && s.method != "noZWJ" && s.method != "unicodeStd" {
+				needInterp = true
+			}
+		}
 		for m := 0; m < 8; m++ {
 			u, e, z := m&1 != 0, m&2 != 0, m&4 != 0
 			sigma := map[string]bool{"Vaxis.caps.unicodeCore": u, "Vaxis.caps.explicitWidth": e, "Vaxis.caps.noZWJ": z}
@@ -811,9 +818,18 @@ func c07WidthDecision(c *Ctx, info *types.Info) {
 				want = "noZWJ"
 			}
 			var sel []string
-			for _, s := range sites {
-				if holds, _ := s.g.reachableUnder(s.loc, sigma); holds {
-					sel = append(sel, s.method)
+			if needInterp {
+				got, prob := c07InterpWidth(c, fi, sigma)
+				if prob != "" {
+					c.undecided("C07.g", fmt.Sprintf("%s/unicodeCore=%v explicitWidth=%v noZWJ=%v -> %s", fn.name, u, e, z, want), fi.Decl.Pos(), "the width method is passed through a variable and the function cannot be interpreted: %s", prob)
+					continue
+				}
+				sel = got
+			} else {
+				for _, s := range sites {
+					if holds, _ := s.g.reachableUnder(s.loc, sigma); holds {
+						sel = append(sel, s.method)
+					}
 				}
 			}
 			got := fn.implicit
@@ -851,4 +867,42 @@ func extraGuards(c *Ctx, fi *FuncInfo, d1 ast.Node, gk []string) []string {
 		}
 	}
 	return out
+}
+
+// c07InterpWidth runs fi concretely with the capability flags of sigma and returns the method
+// constants passed to gwidth.
+func c07InterpWidth(c *Ctx, fi *FuncInfo, sigma map[string]bool) ([]string, string) {
+	info := fi.Pkg.TypesInfo
+	names := map[int64]string{}
+	for _, n := range []string{"wcwidth", "noZWJ", "unicodeStd"} {
+		if o, ok := fi.Pkg.Types.Scope().Lookup(n).(*types.Const); ok {
+			if v, ok2 := constToInt(types.TypeAndValue{Value: o.Val()}); ok2 {
+				names[v] = n
+			}
+		}
+	}
+	var got []string
+	m := &Machine{info: info, prog: c.P, fields: map[string]val{}, tracked: func(*types.Var) bool { return false }}
+	m.resolve = func(e ast.Expr) (val, bool) {
+		if v, ok := sigma[canonExpr(info, e)]; ok {
+			return val{k: vBool, b: v}, true
+		}
+		return val{}, false
+	}
+	m.onCall = func(m *Machine, fn *types.Func, call *ast.CallExpr, args []val) (val, bool) {
+		if fn.Name() == "gwidth" && len(args) == 2 {
+			if args[1].k == vInt {
+				got = append(got, names[args[1].i])
+			} else {
+				m.problem("gwidth called with a non-constant method")
+			}
+			return val{}, true
+		}
+		return val{}, true // other calls (logging) have no effect on the decision
+	}
+	m.callDecl(fi.Decl, []val{{}})
+	if len(m.problems) > 0 {
+		return nil, strings.Join(m.problems, "; ")
+	}
+	return got, ""
 }
